@@ -15,39 +15,148 @@ RULE = (
   "case = random constrained model incl. adhesion actuators (contacts of every condim, equalities, limits, frictionloss; Newton/CG, both cones, dense/sparse) x settled random "
   "state, 1-2 worlds; oracle on MJWarp's outputs after forward(), converged worlds only: limit and frictionless/pyramidal contact row forces >= -eps; elliptic contacts: normal "
   "force >= -eps and sqrt(sum (f_i/mu_i)^2) <= f_normal (1+eps); |friction-loss force| <= frictionloss (1+eps); state SATISFIED => force == 0; qfrc_constraint == J^T force; "
-  "contact_force normal component >= -adhesion-eps; evaluation = one world; non-trivial = an active contact with non-zero tangential force or a saturated friction-loss row"
+  "contact_force normal component >= -adhesion-eps; plus contact-only free-body scenes evaluated for 2-4 states on ONE Data (states with contacts alternating with states without any row, with and without the sleep flag): the same predicates, and qfrc_constraint zero (1e-4 of the smooth-force scale) when a world has no rows; evaluation = one world (and step); non-trivial = an active contact with non-zero tangential force or a saturated friction-loss row"
 )
 ASSUMPTIONS = ["eps = 1e-4 * max(1, max|force|) (float32)", "worlds with ITERATIONS/LS_ITERATIONS set are only checked for qfrc_constraint = J^T force"]
 BUDGET = {"quick": dict(examples=400, seconds=150, workers=16), "thorough": dict(examples=10000, seconds=1500, workers=16)}
 
 
+def _reuse_strategy():
+  """Contact-only scenes (free bodies over a plane) evaluated for a sequence of states on ONE Data: states with contacts alternate with states in which the bodies
+  are spread out in free space (nefc == 0), with and without the sleep flag (compacted solve)."""
+  from hypothesis import strategies as st
+
+  from vf import gen
+
+  return st.fixed_dictionaries(
+    dict(
+      kind=st.just("reuse"),
+      cfg=gen.cfg_strategy(nroot=st.integers(2, 5), maxdepth=0, joint_menu=["free"], plane=True, contacts="pile", dynamics=True, limits=0.0, frictionloss=0.0, tendons=0, equalities=0,
+                           actuators=0, condim_menu=st.sampled_from([[3], [1, 3, 4, 6]]), geom_menu=st.sampled_from([["sphere", "capsule", "box"], ["sphere", "capsule"], ["sphere"]])),
+      opt=gen.option_strategy(integrators=("Euler",)),
+      sleep=st.booleans(),
+      island=st.booleans(),
+      nworld=st.integers(1, 2),
+      seed=st.integers(0, 10**6),
+      # per step and world: "touch" (random pile, settled a little) or "apart" (no constraint rows)
+      seq=st.lists(st.lists(st.sampled_from(["touch", "touch", "apart"]), min_size=2, max_size=2), min_size=2, max_size=4),
+    )
+  )
+
+
 def strategy(tier):
   from hypothesis import strategies as st
 
-  return st.one_of(solvercase.strategy(tier), solvercase.strategy(tier, adhesion=True))
+  return st.one_of(solvercase.strategy(tier), solvercase.strategy(tier, adhesion=True), _reuse_strategy())
+
+
+def _check_reuse(case, rec):
+  import mujoco
+
+  from vf import gen, mjw as H
+  from vf.core import Reject
+
+  cfg = dict(case["cfg"])
+  opt = dict(case["opt"])
+  flags = {}
+  if case["sleep"]:
+    opt["solver"] = "Newton"
+    flags["sleep"] = "enable"
+    if not case["island"]:
+      flags["island"] = "disable"
+  if flags:
+    opt["flags"] = flags
+  cfg["option"] = opt
+  mjm = H.compile_spec(gen.make_spec(cfg))
+  if mjm.nv == 0 or mjm.nq != 7 * mjm.nbody - 7:
+    raise Reject("not a free-body scene")
+  n = case["nworld"]
+  m = H.put_model(mjm)
+  d = H.make_data(mjm, nworld=n, nconmax=150, njmax=600)
+  cone = opt["cone"]
+  prev_rows = [0] * n
+  for k, kinds in enumerate(case["seq"]):
+    states = []
+    for w in range(n):
+      s = H.rand_state(mjm, case["seed"] + 17 * k + 101 * w, sigma=0.1, vel=0.3, applied=False)
+      q = np.array(s["qpos"], dtype=np.float64)
+      if kinds[w] == "apart":
+        for b in range(mjm.nbody - 1):
+          q[7 * b : 7 * b + 3] = [3.0 * b, 3.0 * w, 5.0 + 2.0 * b]
+      else:
+        tmp = mujoco.MjData(mjm)
+        H.set_mjd(tmp, s)
+        try:
+          for _ in range(5):
+            mujoco.mj_step(mjm, tmp)
+        except mujoco.FatalError:
+          raise Reject("mujoco aborts on this model")
+        if np.all(np.isfinite(tmp.qpos)) and np.all(np.isfinite(tmp.qvel)):
+          q, s["qvel"] = np.array(tmp.qpos), H.f32(tmp.qvel)
+      s["qpos"] = H.f32(q)
+      states.append(s)
+    H.set_data(d, states)
+    mjw.forward(m, d)
+    of = H.overflow(d)
+    if (of & int(OT.NEFC | OT.NJMAX_NNZ | OT.BROADPHASE | OT.NARROWPHASE | OT.NVMAX)).any():
+      rec.inconclusive += 1
+      return
+    qfrc = d.qfrc_constraint.numpy()
+    for w in range(n):
+      rec.ev()
+      e, c = H.efc_dense(m, d, w), H.contacts(d, w)
+      rec.cls(f"reuse:step{min(k, 3)}:{kinds[w]}", f"reuse:nefc0:{e['nefc'] == 0}", f"reuse:sleep:{case['sleep']}", f"reuse:sparse:{bool(m.is_sparse)}")
+      ctx = dict(world=w, cone=cone, solver=opt["solver"], step=k, kinds=kinds, sleep=case["sleep"])
+      if e["nefc"] == 0:
+        # no rows: J^T f is the zero vector
+        # (the pyramidal path forms qfrc_constraint as M qacc - qfrc_smooth: zero up to float32 round-off of the smooth force)
+        tol0 = 1e-4 * max(1.0, float(np.max(np.abs(d.qfrc_smooth.numpy()[w]))))
+        rec.err("qfrc_constraint with no rows / smooth-force scale", float(np.max(np.abs(qfrc[w]))) / (tol0 / 1e-4))
+        if np.any(np.abs(qfrc[w]) > tol0):
+          j = int(np.argmax(np.abs(qfrc[w])))
+          rec.violation(f"no constraint rows in world {w} at step {k} but qfrc_constraint[{j}] = {float(qfrc[w][j])!r} (rows at the previous step: {prev_rows[w]})", sig="qfrc:nefc0-nonzero", **ctx)
+        if prev_rows[w] > 0:
+          rec.nt(extra=["reuse", k, w])
+      else:
+        _judge(rec, m, d, w, e, c, qfrc, cone, int(of[w]), ctx, None)
+      prev_rows[w] = e["nefc"]
 
 
 def check(case, rec):
+  if case.get("kind") == "reuse":
+    return _check_reuse(case, rec)
   mjm, m, d, worlds = solvercase.evaluate(case, rec)
   qfrc = d.qfrc_constraint.numpy()
   cone = case["opt"]["cone"]
   for W in worlds:
     rec.ev()
     w, e, c = W.w, W.ew, W.cw
-    nefc = e["nefc"]
-    if nefc == 0:
+    ctx = dict(world=w, cone=cone, solver=case["opt"]["solver"])
+    if e["nefc"] == 0:
+      tol0 = 1e-4 * max(1.0, float(np.max(np.abs(d.qfrc_smooth.numpy()[w]))))
+      if np.any(np.abs(qfrc[w]) > tol0):
+        rec.violation(f"no constraint rows in world {w} but qfrc_constraint = {qfrc[w][np.nonzero(np.abs(qfrc[w]) > tol0)[0][:4]].tolist()}", sig="qfrc:nefc0-nonzero", **ctx)
       continue
+    interesting = _judge(rec, m, d, w, e, c, qfrc, cone, W.overflow, ctx, W)
+    rec.cls(f"cone:{cone}", f"solver:{case['opt']['solver']}", f"interesting:{interesting}")
+    if interesting:
+      rec.nt(extra=w)
+
+
+def _judge(rec, m, d, w, e, c, qfrc, cone, overflow, ctx, W):
+  """Admissibility predicates of one world (rows e, contacts c); returns the non-triviality flag."""
+  nefc = e["nefc"]
+  if True:
     f = e["force"].astype(np.float64)
     if not np.all(np.isfinite(f)):
       rec.inconclusive += 1
-      continue
+      return False
     t, st_, fl = e["type"], e["state"], e["frictionloss"].astype(np.float64)
     eps = 1e-4 * max(1.0, float(np.max(np.abs(f))))
-    ctx = dict(world=w, cone=cone, solver=case["opt"]["solver"])
     J = e["J"].astype(np.float64)
     check_close(rec, "qfrc_constraint=J^T f", qfrc[w], J.T @ f, 1e-4, scale=max(1.0, float(np.max(np.abs(J).T @ np.abs(f))), float(np.max(np.abs(d.qfrc_smooth.numpy()[w])))), sig="qfrc", **ctx)
-    if W.overflow & int(OT.ITERATIONS | OT.LS_ITERATIONS):
-      continue
+    if overflow & int(OT.ITERATIONS | OT.LS_ITERATIONS):
+      return False
     interesting = False
     for i in range(nefc):
       ti = int(t[i])
@@ -81,7 +190,7 @@ def check(case, rec):
         interesting |= len(rows) >= 2 and abs(f[rows[0]] - f[rows[1]]) > 1e-3 * max(1.0, abs(f[rows[0]]))
     # contact_force normal >= -adhesion
     if ncon:
-      ids = wp.array(W.gids.astype(np.int32) if hasattr(W, "gids") else np.nonzero(d.contact.worldid.numpy()[: int(d.nacon.numpy()[0])] == w)[0].astype(np.int32), dtype=int)
+      ids = wp.array(W.gids.astype(np.int32) if (W is not None and hasattr(W, "gids")) else np.nonzero(d.contact.worldid.numpy()[: int(d.nacon.numpy()[0])] == w)[0].astype(np.int32), dtype=int)
       out = wp.zeros(ids.size, dtype=wp.spatial_vector)
       mjw.contact_force(m, d, ids, False, out)
       o = out.numpy()
@@ -89,6 +198,4 @@ def check(case, rec):
       for k in range(len(o)):
         if o[k][0] < -adh[k] - eps:
           rec.violation(f"contact_force normal {o[k][0]} < -adhesion {-adh[k]}", sig="contact_force-negative", **ctx)
-    rec.cls(f"cone:{cone}", f"solver:{case['opt']['solver']}", f"interesting:{interesting}")
-    if interesting:
-      rec.nt(extra=w)
+    return interesting
